@@ -146,6 +146,7 @@ func (m *Machine) branch(cond *sym.Term) bool {
 		p.FastDecided++
 		d := Decision{Taken: fv, Forced: forced}
 		if !forced {
+			m.noteFork()
 			alt := make([]Decision, idx+1)
 			copy(alt, p.Decisions)
 			alt[idx] = Decision{Taken: !fv}
@@ -178,6 +179,7 @@ func (m *Machine) branch(cond *sym.Term) bool {
 		if res == sym.Unknown {
 			p.Unknowns++
 		}
+		m.noteFork()
 		alt := make([]Decision, idx+1)
 		copy(alt, p.Decisions)
 		alt[idx] = Decision{Taken: !v}
@@ -579,6 +581,17 @@ func (p *Path) solve(extra *sym.Term, vars []*sym.Term) (sym.Result, map[string]
 		}
 	}
 	return res, mod
+}
+
+func (m *Machine) noteFork() {
+	if !m.ForkSites || m.curInstr == nil {
+		return
+	}
+	pos := m.P.Fset.Position(m.curInstr.Pos())
+	if !pos.IsValid() && m.curFn != nil {
+		pos = m.P.Fset.Position(m.curFn.Pos())
+	}
+	m.path.Notes[fmt.Sprintf("fork@%s:%d", pos.Filename, pos.Line)]++
 }
 
 func (p *Path) emit(w WorkItem) {
